@@ -385,7 +385,14 @@ fn run_chunks(prop: &Prop, tier: Tier, seed: u64, lists: Vec<Vec<u64>>, jobs: us
                     let status = child.wait().ok();
                     if let Some(run) = begun {
                         // died (or was killed by the watchdog) inside `run`
-                        let _ = tx.send(Msg::Died(run, format!("{status:?}")));
+                        use std::os::unix::process::ExitStatusExt;
+                        let sig = status.and_then(|s| s.signal());
+                        let why = match sig {
+                            Some(9) => "signal: 9 (killed by the per-run watchdog, or by the kernel)".to_string(),
+                            Some(n) => format!("signal: {n}"),
+                            None => format!("{status:?}"),
+                        };
+                        let _ = tx.send(Msg::Died(run, why));
                         finished += 1;
                     } else if finished < list.len() && !status.is_some_and(|s| s.success()) {
                         let _ = tx.send(Msg::Died(list[finished], format!("worker failed before run: {status:?}")));
